@@ -23,7 +23,7 @@ func (c18) Budget(tier string) (int, int) {
 	if tier == "thorough" {
 		return 30000000, 480
 	}
-	return 150000, 90
+	return 60000, 90
 }
 func (c18) Rule() string {
 	return fmt.Sprintf("stage A (deterministic): 2-6 tasks, each a real goroutine with private Buffer / ValueReader / destinations / Decode targets executing 1-5 operations drawn from the whole exported API on 1-4 SHARED read-only documents; half of the scenarios make all tasks run the same function. The library is an AST-instrumented copy of /repo's working tree with a yield at every function entry, loop body, Ragel state label and in front of every other statement (%d sites in this build); simulator-owned handler callbacks run between yields. Exactly one task is runnable; the schedule tape names which task runs next and for how many yields. Three schedule families: random quanta (1..256 yields); preemption-bounded (1-3 preemptions in all, each at a yield count derived from the task's own sequential run, another task running to completion in the gap); and a bounded-exhaustive single-preemption sweep (one block of 1,024 consecutive scenario indices in eight shares one two-task base scenario and preempts task k/512 after exactly k%%512+1 yields). One scenario in six makes every task do identical work. Documents include objects with many distinct field names, arrays of records, and string tokens whose length sits around a power of two (256..64 Ki) with a late first escape. Error texts (read right after the call returns) are part of the compared result. Oracle: every operation's outcome equals its outcome when the same scenario runs one task after another in the same binary; shared documents unchanged. Non-trivial: at least one task switch landed inside a library call; distinct = distinct hashes of the (task, yield-site kind) switch sequence plus operations.", len(rjson.VerifSites))
